@@ -715,9 +715,8 @@ theorem maxEnt_mul_e (d1 d2 p i p' j : Nat) (hi : i < d1) (hj : j < d2) :
 theorem krausToChoi_core (phi : KrausArg α) (as bs : List (Mat α)) (di0 di1 do0 do1 : Nat) (env : Option Nat)
     (ha : Shaped as do0 di0) (hb : Shaped bs do1 di1) (hl : as.length = bs.length) (h : as ≠ [])
     (hdim : channelDimKraus phi true .none = .ok ⟨di0, di1, do0, do1, env⟩)
-    (hpart : ∀ rho : Mat α, ∀ rd cd : Nat → Nat, partialChannelKraus rho phi 2 2 rd cd
-      = some (applyKrausLists rho (as.map (embed (prodBefore rd 2) (prodAfter rd 2 2)))
-          (bs.map (embed (prodBefore cd 2) (prodAfter cd 2 2))))) :
+    (hpart : ∀ rho : Mat α, partialChannelKraus rho phi 2 2 (fnOfList [di0, di0]) (fnOfList [di1, di1])
+      = some (applyKrausLists rho (as.map (embed di0 1)) (bs.map (embed di1 1)))) :
     ∃ J, krausToChoi phi = some J ∧ J.r = di0 * do0 ∧ J.c = di1 * do1 ∧
       ∀ i a j b, i < di0 → a < do0 → j < di1 → b < do1 →
         J.e (i * do0 + a) (j * do1 + b) = applySpec as.length (fam as) (fam bs) di0 di1 (unit i j) a b := by
@@ -726,7 +725,7 @@ theorem krausToChoi_core (phi : KrausArg α) (as bs : List (Mat α)) (di0 di1 do
     unfold krausToChoi
     rw [hdim]
     simp only []
-    rw [hpart, prodBefore_two, prodAfter_two, prodBefore_two, prodAfter_two]
+    rw [hpart]
   refine ⟨_, hk, ?_, ?_, ?_⟩
   · cases as with
     | nil => exact absurd rfl h
